@@ -2,6 +2,7 @@ package main
 
 import (
 	"bytes"
+	"encoding/json"
 	"github.com/vulcand/oxy/v2/verifhook"
 	"io"
 	"math/rand"
@@ -377,16 +378,35 @@ func stressRebalAdmin(cfg M, tr *Trace, seed int64) {
 	tr.Emit(M{"e": "Totals", "what": "removed server still a pool member", "expect": 0, "got": ghosts.Load()})
 }
 
+// lockedWriter: a sink whose individual Write calls are atomic (a file, a pipe, a locked buffer) - the user's writer is
+// environment; what belongs to the tracer is that one record reaches it as one piece.
 type lockedWriter struct {
-	mu sync.Mutex
-	n  int
+	mu  sync.Mutex
+	n   int
+	buf bytes.Buffer
 }
 
 func (l *lockedWriter) Write(p []byte) (int, error) {
 	l.mu.Lock()
 	l.n += bytes.Count(p, []byte("\n"))
+	l.buf.Write(p)
 	l.mu.Unlock()
+	runtime.Gosched() // let another request's record in between two writes of this one, if the tracer makes two
 	return len(p), nil
+}
+
+// intact: the lines of the output that are one complete JSON record each
+func (l *lockedWriter) intact() int {
+	l.mu.Lock()
+	defer l.mu.Unlock()
+	n := 0
+	for _, line := range bytes.Split(l.buf.Bytes(), []byte("\n")) {
+		var rec map[string]any
+		if len(line) > 0 && json.Unmarshal(line, &rec) == nil {
+			n++
+		}
+	}
+	return n
 }
 
 // stressStackAll: trace -> connlimit -> ratelimit -> cbreaker -> rebalancer -> buffer -> handler under concurrent requests.
@@ -446,6 +466,7 @@ func stressStackAll(cfg M, tr *Trace, seed int64) {
 		}
 	}, seed)
 	tr.Emit(M{"e": "Totals", "what": "trace records = requests", "expect": G * K, "got": lw.n})
+	tr.Emit(M{"e": "Totals", "what": "trace records that arrived in one piece = requests", "expect": G * K, "got": lw.intact()})
 	tr.Emit(M{"e": "Totals", "what": "handler invocations = relayed responses", "expect": n200.Load(), "got": served.Load()})
 	tr.Emit(M{"e": "Totals", "what": "responses belonging to another request", "expect": 0, "got": badEcho.Load()})
 }
